@@ -176,7 +176,14 @@ class Injector:
                 k = inj.crash_at(idx)
                 if k == 0:
                     os._exit(77)
-                r = real(*a, **kw)
+                try:
+                    r = real(*a, **kw)
+                except BaseException:
+                    # the system call itself failed (mkdir of an existing directory under exist_ok=True ...): the process can
+                    # die right after a failed call just as well
+                    if k is not None:
+                        os._exit(77)
+                    raise
                 if k is not None:
                     os._exit(77)
                 return r
